@@ -198,6 +198,20 @@ fn contract_remove_pop_clear(lens: [usize; MAXC], which: u8, idx: usize) {
         let after = bytes_of(&c);
         assert!(wf(&c), "C20.remove.wf");
         assert!(after.1 + e.len() == before.1, "C20.remove.len: length drops by the removed chunk");
+        // offset of the idx-th chunk (mk_chain stores the non-empty segments only, in order)
+        let mut off = 0usize;
+        let mut k = 0usize;
+        let mut i = 0usize;
+        while i < MAXC {
+            if lens[i] != 0 {
+                if k < idx {
+                    off += lens[i];
+                }
+                k += 1;
+            }
+            i += 1;
+        }
+        assert!(same(&after, &cut(&before, off, off + e.len())), "C20.remove.view: exactly the removed chunk's bytes are gone, the others keep their order");
     } else if which == 1 {
         let e = c.pop();
         let after = bytes_of(&c);
